@@ -183,7 +183,7 @@ let weave_check (inputs : z list list) (impl : string) : string =
        (* 3. weave per merge *)
        let st = ref (init_wstate lens) in
        let seqs_arr = Array.of_list seqs_sorted in
-       let weave_bad = ref "" and fit_bad = ref "" in
+       let weave_bad = ref "" and fit_bad = ref "" and dims_bad = ref "" in
        List.iter (fun nd ->
            let sip = Array.of_list !st.w_sip and gaps = Array.of_list !st.w_gaps in
            let width x = match (if x < Array.length sip then sip.(x) else []) with
@@ -191,12 +191,16 @@ let weave_check (inputs : z list list) (impl : string) : string =
              | [] -> -1 in
            let ks = List.map (fun o -> op_kind (z_of_int o)) nd.ops in
            if not (ops_fitb ks (nat_of_int (width nd.na)) (nat_of_int (width nd.nb))) && !fit_bad = "" then fit_bad := string_of_int nd.nc;
+           (* the premise of C01_integrity_for_every_guide_tree_and_wf_path (TreePaths.build_tasks): the raw path has one entry per
+              column of group a and was produced for the width of group b, both as the model's state has them *)
+           if (nd.nlb <> width nd.nb || List.length nd.raw <> width nd.na) && !dims_bad = "" then dims_bad := string_of_int nd.nc;
            st := merge_step !st (nat_of_int nd.na) (nat_of_int nd.nb) (nat_of_int nd.nc) (List.map z_of_int nd.ops);
            let sip' = Array.of_list !st.w_sip and gaps' = Array.of_list !st.w_gaps in
            let mem' = List.map int_of_nat (if nd.nc < Array.length sip' then sip'.(nd.nc) else []) in
            let rows' = List.map (fun i -> expand gaps'.(i) seqs_arr.(i)) mem' in
            if (mem' <> nd.mem || rows' <> nd.nrows) && !weave_bad = "" then weave_bad := string_of_int nd.nc) nodes;
        add "fit" (if !fit_bad = "" then "ok" else "VIOLATED@" ^ !fit_bad);
+       add "dims" (if !dims_bad = "" then "ok" else "VIOLATED@" ^ !dims_bad);
        add "weave" (if !weave_bad = "" then "ok" else "DIFF@" ^ !weave_bad);
        (* 4. final rows *)
        let model_final = final_rows !st seqs_sorted in
